@@ -1,6 +1,7 @@
 /-
   C20 — Unlikely-content pruning applies only if enough content remains, else fallback.
 -/
+import Distill.Props.DomHelpers
 import Distill.Proofs.Prune
 import Distill.Model.Extract
 namespace Distill.C20
